@@ -6,9 +6,9 @@ import codec, targets
 
 MODEL_TARGETS = ["model/De.vo", "model/Reader.vo"]
 COQ_TARGETS = ["props/C04.vo", "proofs/ConstsTie.vo"]
-THEOREMS = [("C04", ["C04_nopanic", "C04_datum_nopanic", "C04_fuel_mono", "C04_total", "C04_work_bound", "C04_inbound",
+THEOREMS = [("C04", ["C04_nopanic", "C04_datum_nopanic", "C04_fuel_mono", "C04_total", "C04_work_bound", "C04_total_target", "C04_work_bound_target", "C04_total_any_node", "C04_inbound",
                      "C04_depth_zero", "C04_depth", "C04_seq", "C04_seq_block", "C04_alloc_reader", "C04_alloc_slice"])]
-PROOF_FILES = ["proofs/DeSafetyProofs.v", "proofs/ReaderProofs.v", "proofs/DeProofs.v", "props/C04.v"]
+PROOF_FILES = ["proofs/DeSafetyProofs.v", "proofs/DeTotalProofs.v", "proofs/ReaderProofs.v", "proofs/DeProofs.v", "props/C04.v"]
 TRUSTED_BASE = [
     "Coq 8.16.1 kernel; no axioms (Print Assumptions: closed)",
     "hand-written model/De.v, Reader.v, Varint.v of de/** and integer-encoding 4.1.0, with a Panic outcome at every expect/unwrap/index/unreachable site of the modelled code; tied by the correspondence run on hostile, malformed and random inputs",
@@ -17,7 +17,7 @@ TRUSTED_BASE = [
 ]
 ASSUMPTIONS = [
     "well-behaved target: a Deserialize impl expressible as a dtarget program (hint calls + visitor callbacks); recursive Rust types are unfolded to the depth generated",
-    "C04_total is proved for the dynamically typed and the ignoring consumer; for typed targets termination is decided by the run (the typed completeness theorem C01/C12 covers valid inputs)",
+    "termination is proved for EVERY target program with an explicit bound (C04_total_target: (depth+1) * (max(max_seq_size, widest record) + 10 + 2 * target height) + input length); the outcome Unmodelled marks three places where the model does not follow the crate (counted by the run)",
     "max_seq_size < 2^64-1 (at usize::MAX the saturating element counter can no longer detect overflow: has_more_saturates)",
     "an ignoring consumer skips a block written with a negative count by its advertised byte size without counting its elements against max_seq_size (constant work, nothing delivered); the limit is enforced for every element that is decoded or produced",
     "memory: proved = slice reads are borrows and reader reads above the cap are rejected before allocating; measured on the crate = zero allocations on the slice path with an ignoring consumer, largest single allocation <= cap on the reader path",
